@@ -107,7 +107,19 @@ def call_vector(di, h, a, v):
     return f(v, **kw)
 
 
+_HELPER_OBJECTS = {}
+
+
 def helper_for_column(di, h, a):
+    """The shorthand helper object for column x.  Objects are kept and reused across frames of different column
+    types (a helper may be defined once and used on many frames): nothing may stick to the object between uses."""
+    key = (h, a["dropna"], a["ddof"] if h in ("std", "var") else 0, a["idx"] if h == "nth" else 0, a["q4"] if h == "quantile" else 0)
+    if key not in _HELPER_OBJECTS:
+        _HELPER_OBJECTS[key] = _new_helper(di, h, a)
+    return _HELPER_OBJECTS[key]
+
+
+def _new_helper(di, h, a):
     f = getattr(di, h)
     kw = kwargs_for(h, a)
     if h == "nth":
